@@ -418,6 +418,7 @@ func run(r *evid.Run) {
 	// cheap, high-yield parts first: every model state through every derived view, then short sequences
 	derived(r, nil, scratch)
 	pathVariety(r, scratch)
+	liveViews(r)
 	sequences(r, scratch)
 	ops := Alphabet(!r.Quick())
 	if r.Quick() {
